@@ -87,7 +87,8 @@ def run(tier, wd):
                     # ... or after it ran under an explicit spec string that was then taken away again (Spec = "")
                     members.append({"si": si, "env": env, "argv": list(line), "prerun": [[], list(line)], "prespec": explicit})
                     # ... or after the generated spec, which Run stores in the Spec field, was taken away again
-                    members.append({"si": si, "env": env, "argv": list(line), "prerun": [[], list(line)], "prespec": ""})
+                    # (exactly one earlier run: a second one would already see the generated string in the Spec field)
+                    members.append({"si": si, "env": env, "argv": list(line), "prerun": [list(line)], "prespec": ""})
                 groups.append({"rel": "same", "members": members})
     # unbounded part (binding C): the automaton the library compiles for the spec-less command is language-equivalent to
     # Seq(Optional(Group(all)), Arg...) - and so is the one compiled from the explicit string
